@@ -45,6 +45,17 @@ func checkC03(c *Ctx) {
 		"ctor:" + modPath + "/" + redisPkg + ".newRawRequest":    "body",
 	}
 	// ---------------- R1
+	// key position by handler kind: a function bound (in the handler table) to EVAL/EVALSHA routes by argument 3,
+	// every other keyed command by argument 1
+	bindsR1, _ := handlerTable(c, "R1")
+	keyPosOf := func(fn *ssa.Function) int64 {
+		for _, b := range bindsR1 {
+			if b.fn == fn && (b.name == "eval" || b.name == "evalsha") {
+				return 3
+			}
+		}
+		return 1
+	}
 	nCall := 0
 	for _, ed := range p.callersOf(mr) {
 		nCall++
@@ -52,10 +63,7 @@ func checkC03(c *Ctx) {
 		args := ed.Site.Common().Args
 		key, req := args[1], args[2]
 		site := fmt.Sprintf("MakeRequest in %s", fnKey(fn))
-		pos := int64(1)
-		if strings.Contains(strings.ToLower(fn.Name()), "eval") {
-			pos = 3
-		}
+		pos := keyPosOf(fn)
 		// key = B.Array[p].Text with B the body of the request that is passed
 		okKey, why := false, "the key is not of the form body.Array[p].Text"
 		if ld, ok := key.(*ssa.UnOp); ok && ld.Op == token.MUL {
@@ -64,6 +72,31 @@ func checkC03(c *Ctx) {
 					if ia, ok := base.(*ssa.IndexAddr); ok {
 						pk, isC := constInt(ia.Index)
 						af, b := loadedField(ia.X)
+						// the position may be a parameter of a shared helper: every caller passes the constant of its kind
+						viaParam := ""
+						if prm, isP := ia.Index.(*ssa.Parameter); isP && !isC && prm.Parent() == fn {
+							idx := paramIndex(fn, prm)
+							edges := p.callersOf(fn)
+							isC = len(edges) > 0
+							for _, ce := range edges {
+								if p.isTestFn(ce.Caller.Func) {
+									continue
+								}
+								ca := ce.Site.Common().Args
+								k, okk := int64(0), false
+								if idx < len(ca) {
+									k, okk = constInt(ca[idx])
+								}
+								if !okk {
+									isC = false
+									continue
+								}
+								if want := keyPosOf(ce.Caller.Func); k != want {
+									viaParam = fmt.Sprintf("%s passes key position %d, the key of its kind of command is argument %d", fnKey(ce.Caller.Func), k, want)
+								}
+							}
+							pk, pos = 0, 0 // compared per caller above
+						}
 						if af != nil && af.Name() == "Array" && isC {
 							// b is the body value: Body(R) or a variable holding it
 							var bodyOf ssa.Value // request whose body it is
@@ -84,6 +117,8 @@ func checkC03(c *Ctx) {
 							switch {
 							case !same:
 								why = "the key is taken from the body of another request than the one that is sent"
+							case viaParam != "":
+								why = viaParam
 							case pk != pos:
 								why = fmt.Sprintf("the key is argument %d, the key of this kind of command is argument %d", pk, pos)
 							default:
